@@ -6,7 +6,7 @@ import threading
 import time
 
 from ..gen import opgen, schemair as S
-from ..gen.world import Binding, Crash, World
+from ..gen.world import Binding, Crash, CrashBase, World
 from ..mon import exec_mon, sched
 from ..ref import refexec
 
@@ -37,6 +37,7 @@ RULE = (
     "kwargs).  For queries whose reference result is clean, one coroutine resolver of the operation is made to "
     "raise asyncio.CancelledError after its gate opens (three completion orders): the request has to fail with it. "
     "Loader-style resolvers hand back exception instances as String values (values, never raised). "
+    "One case per shard raises a BaseException that is no Exception. "
     "Non-trivial = distinct (request, configuration, schedule) with >= 2 "
     "deferred resolvers."
 )
@@ -87,7 +88,7 @@ def check_outcome(ctx, ref, out, witness, config):
         ctx.violation("stuck:%s" % config, witness, out[1])
         return False
     if ref[0] == "crash":
-        surfaced = out[0] == "raised" and isinstance(out[1], Crash)
+        surfaced = out[0] == "raised" and isinstance(out[1], (Crash, CrashBase))
         if out[0] == "raised" and not surfaced and isinstance(out[1], RuntimeError) and \
                 isinstance(out[1].__cause__ or out[1].__context__, Crash) and \
                 isinstance(out[1].__cause__ or out[1].__context__, StopIteration):
@@ -134,7 +135,7 @@ def run_config(ctx, rng, case, config, text, op, variables, ref, base_witness, m
             else:
                 res = py_gql.process_graphql_query(case.schema_sync, text, executor_cls=Executor, **kw)
             out = sched.normalise(res)
-        except Exception as e:
+        except BaseException as e:  # noqa
             out = ("raised", e)
         ctx.evaluated()
         ctx.count("runs:" + config)
@@ -263,10 +264,16 @@ def run(ctx):
     quick = ctx.tier == "quick"
     max_exh = 40 if quick else 240
     n_samples = 6 if quick else 24
-    for ci in range(ctx.n(7)):
-        p_crash = 0.3 if ci % 2 == 1 else 0.0
+    n_cases = ctx.n(7)
+    for ci in range(n_cases + 1):
+        # (one more case per shard: the unexpected exception is a BaseException that is no Exception)
+        base_exception_case = ci == n_cases
+        p_crash = 0.3 if ci % 2 == 1 or base_exception_case else 0.0
         case = DualCase(rng, "c08:%d:%d:%d" % (ctx.seed, ctx.shard, ci), p_crash)
-        if p_crash:
+        if base_exception_case:
+            case.sync.crash_class = case.asyn.crash_class = CrashBase
+            ctx.count("crash_class:CrashBase")
+        elif p_crash:
             # every class of the family gets its turn across cases and shards
             from ..gen.world import DISTINCT_CRASH_CLASSES
 
